@@ -279,6 +279,7 @@ theorem flush_queues (k : Kcp) (full : Bool) (now : U32) :
     (flushAd k now).count ≤ k.snd_queue.length ∧
     (flush k full now).k.snd_queue = k.snd_queue.drop (flushAd k now).count ∧
     (flush k full now).k.snd_buf.length = k.snd_buf.length + (flushAd k now).count ∧
+    (flushAd k now).buf.length = k.snd_buf.length + (flushAd k now).count ∧
     (flush k full now).k.rcv_buf = k.rcv_buf ∧ (flush k full now).k.rcv_queue = k.rcv_queue := by
   obtain ⟨pw, tp, st, ss, cw, inc, done, hk, hd⟩ := flush_k k full now
   obtain ⟨n, h1, h2, h3, h4⟩ := admitSegs_shape k.conv k.snd_una (effCwnd k) now k.snd_queue k.snd_buf k.snd_nxt 0
@@ -286,23 +287,35 @@ theorem flush_queues (k : Kcp) (full : Bool) (now : U32) :
   have hl : done.length = (flushAd k now).buf.length := by
     have := congrArg List.length hd
     simpa only [List.length_map] using this
+  have hb : (flushAd k now).buf.length = k.snd_buf.length + n := by unfold flushAd; exact h4
   rw [hk, hc]
-  refine ⟨h2, ?_, ?_, rfl, rfl⟩
+  refine ⟨h2, ?_, ?_, hb, rfl, rfl⟩
   · show (flushAd k now).queue = _
     unfold flushAd; exact h3
   · show done.length = _
-    rw [hl]; unfold flushAd; exact h4
+    rw [hl]; exact hb
+
+/-- the lengths that make the two `reattach` of `flushO` exact -/
+theorem flushO_lens {o : KcpO} (h : Sync o) (full : Bool) (now : U32) :
+    (flushAd o.k now).buf.length = (o.sb ++ o.sq.take (flushAd o.k now).count).length ∧
+    (o.k.flush full now).k.snd_buf.length =
+      (reattach (flushAd o.k now).buf (o.sb ++ o.sq.take (flushAd o.k now).count)).length := by
+  obtain ⟨h1, _, h3, h4, _, _⟩ := flush_queues o.k full now
+  have hl : (flushAd o.k now).buf.length = (o.sb ++ o.sq.take (flushAd o.k now).count).length := by
+    rw [h4, h.sb, er_length, List.length_append, List.length_take]
+    rw [h.sq, er_length] at h1
+    omega
+  refine ⟨hl, ?_⟩
+  rw [reattach_length _ _ hl, ← hl, h3, h4]
 
 theorem flushO_sync {o : KcpO} (h : Sync o) (full : Bool) (now : U32) : Sync (flushO o full now).o := by
-  obtain ⟨h1, h2, h3, h4, h5⟩ := flush_queues o.k full now
+  obtain ⟨_, h2, _, _, h4, h5⟩ := flush_queues o.k full now
+  obtain ⟨_, l2⟩ := flushO_lens h full now
   unfold flushO
   simp only []
   refine ⟨?_, ?_, ?_, ?_⟩
   · rw [h2, h.sq, er_drop]
-  · rw [er_reattach]
-    rw [h3, h.sb, er_length, List.length_append, List.length_take]
-    rw [h.sq, er_length] at h1
-    omega
+  · rw [er_reattach _ _ l2]
   · rw [h4]; exact h.rb
   · rw [h5]; exact h.rq
 
